@@ -68,10 +68,13 @@ def elaborate(tree):
     maddr = pyrtl.Input(1, 'maddr')
     tags = {}
     vals = {}
+    ens = {}
     for k, (path, tg) in enumerate(assignments(tree)):
         nm = 'v%d' % k
         tags[(path, tg)] = nm
         vals[nm] = pyrtl.Input(W, nm)
+        if tg == 'mem' and k % 2 == 1:
+            ens[nm] = pyrtl.Input(1, 'e%d' % k)      # this write carries its own enable
 
     def walk(nodes, path):
         for i, (pred, asg, children) in enumerate(nodes):
@@ -88,7 +91,11 @@ def elaborate(tree):
                     elif tg == 'regd':
                         regd.next |= v
                     elif tg == 'mem':
-                        mem[maddr] |= v
+                        nm_ = tags[(path + (i,), tg)]
+                        if nm_ in ens:
+                            mem[maddr] |= pyrtl.MemBlock.EnabledWrite(v, ens[nm_])
+                        else:
+                            mem[maddr] |= v
                 walk(children, path + (i,))
     defaults = {}
     if 'wd' in used:
@@ -130,7 +137,12 @@ def interp(o, tree, val, tags):
                 active = o.and_(enclosing, o.not_(taken), pv)
                 nxt = o.or_(taken, pv)
             for tg in asg:
-                acts.setdefault(tg, []).append((active, val[tags[(path + (i,), tg)]]))
+                nm_ = tags[(path + (i,), tg)]
+                acts.setdefault(tg, []).append((active, val[nm_]))
+                if tg == 'mem':
+                    en_name = 'e' + nm_[1:]
+                    en = (val[en_name] != 0) if en_name in val else True
+                    acts.setdefault('mem_write', []).append((o.and_(active, en), val[nm_]))
             walk(children, path + (i,), active)
             taken = nxt
     walk(tree, (), True)
@@ -182,7 +194,7 @@ def replay(tree, inputs, reg0=0, regd0=0, mem0=None):
     exp['regd_next'] = expected(IntOps, acts, 'regd', step['dflt_r'])
     a = step['maddr']
     old = mem_before.get(a, 0)
-    exp['mem_word'] = expected(IntOps, acts, 'mem', old)
+    exp['mem_word'] = expected(IntOps, acts, 'mem_write', old)
     obs['mem_word'] = dict(sim.inspect_mem(mem)).get(a, 0)
     for k in list(exp):
         tg = {'ow': 'w', 'owd': 'wd', 'reg_next': 'reg', 'regd_next': 'regd', 'mem_word': 'mem'}[k]
